@@ -89,6 +89,8 @@ def build(case):
 
 def g_formula(draw):
     C, F = gen.dims(draw)
+    if gen.choice(draw, [False, False, False, False, True]):
+        C = gen.choice(draw, [9, 11, 13, 17, 21])  # mixtures just past a block of 8 or 16 components
     p = gen.gmm_params(draw, C, F, allow_zero_floor=True, kmax=gen.choice(draw, [30.0, 1e3, 1e6]))
     pat = gen.choice(draw, [None, None, None, "tied", "permuted", "permuted"])
     if pat and C >= 2:
